@@ -14,8 +14,10 @@ MANIFEST = {
         "technique": "Lean 4 proof (refinement of three model layers to plain sequences by induction over operation lists: chain model of "
                      "List/PoolList + capacity model of Array -> reference lists; pointer-level heap model of List insert/remove/clear/sort "
                      "-> chain model; cell-level model of the Array loops -> capacity model; sortedness and permutation of the modelled "
-                     "in-place quicksort for every input) + differential correspondence of all three layers vs the real "
-                     "List.hpp/PoolList.hpp/Array.hpp",
+                     "in-place quicksort for every input) + tie by TRANSLATION (tools/gen_seq.py regenerates the relinking bodies of "
+                     "List/PoolList, the loop-carrying member functions of Array and the quicksort of List::sort from the current headers "
+                     "on every run; theorems `translated body = model step`) + differential correspondence of all three layers vs the "
+                     "real List.hpp/PoolList.hpp/Array.hpp",
         "text": "Theorems over ALL operation histories of the Lean models: contents = reference sequence and every returned iterator/reference/"
                 "value = the reference's (refines, refines_returns; inserted element / successor of the removed one: insert_returns_inserted, "
                 "remove_returns_successor); List::sort (pivot = first value, three-pointer walk, value swaps, recursion with a proved fuel "
@@ -33,15 +35,32 @@ MANIFEST = {
                 "reserve/append/resize/remove/clear/copy never touch a cell outside the block or a raw cell and compute the list "
                 "functions of the model (raw_refines, raw_remove); the aliasing shapes on the statement-level models for every position / index / "
                 "size / capacity: l.insert(it, l) at any position incl. every inner one (self_insert_every_position), a.append(a[i]), "
-                "a.resize(n, a[i]), a.append(&a[i], n) (alias_append_every_index, alias_resize_every_index, alias_append_every_range).  The models are tied to the current headers on every run: identical "
+                "a.resize(n, a[i]), a.append(&a[i], n) (alias_append_every_index, alias_resize_every_index, alias_append_every_range).  "
+                "TRANSLATED from the current headers on every run (tools/gen_seq.py: tokenizer + parser of the C++ subset, anything else refused = broken tie) and proved "
+                "equal to the model step on every state that represents a model state: the relinking of List::insert/remove/swap and "
+                "PoolList::linkFreeItem/remove/swap (gen_list_insert, gen_list_remove, gen_pool_link, gen_pool_remove, gen_list_swap, gen_pool_swap); "
+                "Array::reserve from the allocation statement on (growth loop, delete[], re-pointing), reserve(size, ref), resize, clear, "
+                "append(const T&), append(const T*, n), remove(index), remove(iterator) over a checked pointer memory, with the argument in another "
+                "allocation and with the argument pointing into the array itself (gen_reserve, gen_remove_index, gen_remove_iter, gen_clear, "
+                "gen_append_value(_alias), gen_append_ptr(_alias), gen_resize(_alias), gen_resize_shrink: both fault or both succeed in representing "
+                "states, no foreign allocation touched, fuel size+n suffices); QuickSort::swap / the do-while partition loop / QuickSort::sort of "
+                "List::sort for every heap, element type and comparison (gen_sort_swap, gen_sort_partition, gen_sort, gen_sort_comparator: the "
+                "translated sort terminates, follows no null pointer, writes no link and leaves sortVals lt of the values).  "
+                "The models are tied to the current headers on every run: identical "
                 "op lines are executed on the real containers (ASan/UBSan at -O1 and a second unsanitized -O2 build, poisoned "
                 "allocations, white-box node ids of the chain AND of the free list in order, new[]/delete[] counts, forward/backward link walks, "
                 "iterators taken before sort() re-checked after it, sort() also on element types whose operator< is <= or an inconsistent cyclic "
                 "function, PoolList::append with 0..7 arguments) and on the compiled models "
                 "(chain model printed; heap model and cell model run in lockstep, any divergence marks the line), and an independent "
                 "Python reference (plain lists, sorted(), capacity contract) is evaluated on the implementation's output.",
-        "note": "Trusted: Lean kernel + the three standard axioms; the hand translation of the three headers into the models (validated by the "
-                "correspondence run, not proved); the models and all theorems are parametric in the rounding mask of Array::reserve (reserve_policy: every mask "
+        "note": "Trusted: Lean kernel + the three standard axioms; the translator tools/gen_seq.py and its semantics of the C++ subset (ArrMem.lean: T* = "
+                "(allocation id, offset) or null, checked cell accesses, flat-address pointer comparison, usize = Nat, allocation never fails, "
+                "right operand of = evaluated first, const T& parameter = pointer; List: Item* = address, null dereference = fault; the block "
+                "allocation of List::insert and the guard + capacity rounding of Array::reserve are NOT translated but replaced by the model's "
+                "refill / growth rule, which are tied by the executed probe); the hand translation of everything that is not translated "
+                "(append(const Array&), copy construction/assignment, find, operator==, Array::swap, removeFront/removeBack wrappers, destructors, "
+                "insert(pos, list) / remove(value) / clear loops of List, the iterator classes, the public List::sort() wrapper [shape-checked]) into "
+                "the models (validated by the correspondence run, not proved); the models and all theorems are parametric in the rounding mask of Array::reserve (reserve_policy: every mask "
                 "2^j-1) and in the items per block (>= 1) of List and PoolList; the values of the current sources are derived by "
                 "executing a probe built from the current headers (accepted: max(n,capacity)|m for one m = 2^j-1, equidistant block "
                 "allocations) and only instantiate them (mask_is_pow2_minus_one, block_items_pos).  Modelled rather than verified: "
@@ -59,7 +78,7 @@ MANIFEST = {
         "design_ref": "DESIGN.md 3/C03",
     }
 }
-PROPS = ["Nstd.Seq.Props", "Nstd.Seq.PropsSort", "Nstd.Seq.PropsAlias", "Nstd.Seq.PropsHeap", "Nstd.Seq.PropsLink", "Nstd.Seq.PropsSortG", "Nstd.Seq.PropsArr", "Nstd.Seq.PropsArr2", "Nstd.Seq.PropsArr3"]
+PROPS = ["Nstd.Seq.Props", "Nstd.Seq.PropsSort", "Nstd.Seq.PropsAlias", "Nstd.Seq.PropsHeap", "Nstd.Seq.PropsLink", "Nstd.Seq.PropsSortG", "Nstd.Seq.PropsArr", "Nstd.Seq.PropsArr2", "Nstd.Seq.PropsArr3", "Nstd.Seq.PropsSortT"]
 LEAN_TARGETS = PROPS + ["drv_seq"]
 DRIVER = "drv_seq"
 
@@ -226,9 +245,23 @@ def translate_arr(repo=None):
         return False, "tools/gen_seq.py: " + str(e)
 
 
+GEN_SORT = C.LEAN / "Nstd" / "Generated" / "SeqSort.lean"
+
+
+def translate_sort(repo=None):
+    """(ok, message): QuickSort::swap / QuickSort::sort of List::sort() of the CURRENT header -> lean/Nstd/Generated/SeqSort.lean
+    (tools/gen_seq.py, part 3); the public wrapper is shape-checked"""
+    try:
+        return True, "List::sort translated: " + gen_seq.generate_sort(repo or C.REPO, GEN_SORT)
+    except gen_seq.Refuse as e:
+        return False, "tools/gen_seq.py refuses the current List::sort (broken tie): " + str(e)
+    except OSError as e:
+        return False, "tools/gen_seq.py: " + str(e)
+
+
 def gen(ctx):
     ok, msg = translate()
-    for f in (translate_link, translate_arr):
+    for f in (translate_link, translate_arr, translate_sort):
         ok2, msg2 = f()
         ok, msg = ok and ok2, msg + "; " + msg2
     if ctx is not None:
@@ -241,7 +274,7 @@ def setup():
     ok, msg = translate()
     if not ok:
         print("seq translate:", msg)
-    for f in (translate_link, translate_arr):
+    for f in (translate_link, translate_arr, translate_sort):
         ok, msg = f()
         if not ok:
             print("seq translate:", msg)
